@@ -28,6 +28,10 @@ func TestFamily(t *testing.T) {
 		scs = beatScenarios(seed, EnvInt("VERIF_NRANDOM", 40))
 	case "flow", "life", "upg", "poll":
 		scs = append(replayFamily(behs), scriptFamily(fam, seed, EnvInt("VERIF_NRANDOM", 40))...)
+	case "limit":
+		scs = limitFamily(seed, EnvInt("VERIF_NRANDOM", 40))
+	case "host":
+		scs = hostileFamily(seed, EnvInt("VERIF_NRANDOM", 40))
 	case "hr":
 		scs = hrScenarios(behs, "")
 	case "hs":
